@@ -3,7 +3,7 @@
      rt <class> <op>...    round trip in view form; S = the specification
      demux <hex>           demuxer on given bytes
    ops:  AF <hex> <o|n> dur ox oy blend dispose | DM i mode | DU i dur | IC blob | EX blob |
-         XM blob | AC id blob | LC n | BG c | CS w h         (blob: "-" nil, "e" empty, hex)
+         XM blob | AC id blob | LC n | BG c | CS w h | AS (Assemble, result k/e)         (blob: "-" nil, "e" empty, hex)
    The models run are those of the current (repaired) code: MuxModel.repaired and
    DemuxModel.parse true; the pinned variants exist only inside _refuted theorems.    *)
 open Zutil
@@ -25,6 +25,7 @@ let rec parse_ops (t : string list) : MuxModel.op list =
   | "LC" :: n :: tl -> MuxModel.SetLoopCount (z n) :: parse_ops tl
   | "BG" :: c :: tl -> MuxModel.SetBackgroundColor (z c) :: parse_ops tl
   | "CS" :: w :: h :: tl -> MuxModel.SetCanvasSize (z w, z h) :: parse_ops tl
+  | "AS" :: tl -> MuxModel.AssembleCall :: parse_ops tl
   | x :: _ -> failwith ("bad op " ^ x)
 
 let fmt_view (v : MuxView.view) : string =
@@ -42,7 +43,12 @@ let outs ops =
   let b = Buffer.create 16 in
   let _ = Stdlib.List.fold_left (fun m o ->
       let (m', r) = MuxModel.step m o in
-      Buffer.add_char b (match r with MuxModel.OutOk -> 'k' | MuxModel.OutErr -> 'e'); m')
+      (match o with
+       | MuxModel.AssembleCall ->
+         (* the call's own result: Assemble of the state at that point *)
+         Buffer.add_char b (match MuxModel.assemble fixes m with Res.Ok _ -> 'k' | Res.Err _ -> 'e' | Res.Panic -> 'P')
+       | _ -> Buffer.add_char b (match r with MuxModel.OutOk -> 'k' | MuxModel.OutErr -> 'e'));
+      m')
       MuxModel.minit ops in
   Buffer.contents b
 
